@@ -67,14 +67,24 @@ pub fn feed(cc: &mut Chitchat, bytes: &[u8]) -> Result<Option<(ChitchatMessage, 
     }))
 }
 
+/// Under Miri the crafted datagrams use uncompressed blocks only (the real decoder then never calls into zstd).
+pub static RAW_BLOCKS: std::sync::atomic::AtomicBool = std::sync::atomic::AtomicBool::new(false);
+fn plan(n: usize) -> BlockPlan {
+    if RAW_BLOCKS.load(Ordering::Relaxed) {
+        BlockPlan::Raw(n)
+    } else {
+        BlockPlan::Threshold(n)
+    }
+}
+
 pub fn syn_bytes(cluster: &str, digest: &[WDigestEntry]) -> Vec<u8> {
-    codec::encode_msg(&WMsg::Syn { cluster_id: cluster.to_string(), digest: digest.to_vec() }, &BlockPlan::Threshold(16_384))
+    codec::encode_msg(&WMsg::Syn { cluster_id: cluster.to_string(), digest: digest.to_vec() }, &plan(16_384))
 }
 pub fn ack_bytes(ops: &[WOp]) -> Vec<u8> {
-    codec::encode_msg(&WMsg::Ack { ops: ops.to_vec() }, &BlockPlan::Threshold(60_000))
+    codec::encode_msg(&WMsg::Ack { ops: ops.to_vec() }, &plan(60_000))
 }
 pub fn synack_bytes(digest: &[WDigestEntry], ops: &[WOp]) -> Vec<u8> {
-    codec::encode_msg(&WMsg::SynAck { digest: digest.to_vec(), ops: ops.to_vec() }, &BlockPlan::Threshold(60_000))
+    codec::encode_msg(&WMsg::SynAck { digest: digest.to_vec(), ops: ops.to_vec() }, &plan(60_000))
 }
 
 /// Installs a copy of `member` on `cc` through real message processing: a SYN digest creates the
